@@ -370,7 +370,11 @@ func c06Check(c c06Case) (out kit.Outcome) {
 		iss, ret := tr.invokeIssue(tag), tr.invokeReturn(tag)
 		for i := range tr.Events {
 			e := &tr.Events[i]
-			if e.Seq > iss.Seq && e.Seq < ret.Seq && e.Kind == "return" && e.Call == "rt.next" && e.Status == 200 {
+			// "served": the event it received carries the request id of a dispatch inside this caller's window. (A process
+			// killed by the previous reset may record the last answer it got - the failed invocation's event - late,
+			// inside this window: a false alarm of the version that looked at the position of the record only.)
+			if e.Seq > iss.Seq && e.Seq < ret.Seq && e.Kind == "return" && e.Call == "rt.next" && e.Status == 200 &&
+				hasStr(platformRequestIDs(tr, tag), e.Headers["Lambda-Runtime-Aws-Request-Id"]) {
 				// the process that served it must have been launched after the last failure
 				for j := range tr.Events {
 					x := &tr.Events[j]
